@@ -168,7 +168,8 @@ def emit_side(F, res, pol):
 
 
 def data_indices(F, res):
-    nop = Policy(effects=lambda p: not p.startswith('std::') and not p.startswith('log::'), inline=lambda p: False)
+    from heval import local_policy
+    nop = local_policy(F, 'module::data::ModuleData::emit_data_count', public_events=True)
     ws = Evaluator(F, nop).run_fn('module::data::ModuleData::emit_data_count', [sym('self'), sym('cx')])
     good = None
     for w in ws:
@@ -230,9 +231,9 @@ def locals_parse(F, res):
 
 
 def locals_emit(F, res):
-    nop = Policy(effects=lambda p: (not p.startswith('std::') and not p.startswith('log::')) or 'HashMap::insert' in p,
-                 inline=lambda p: False)
+    from heval import local_policy
     p = 'module::functions::local_function::LocalFunction::emit_locals'
+    nop = local_policy(F, p, public_events=True, events=[r'HashMap::insert$'])
     ws = Evaluator(F, nop).run_fn(p, [sym('self'), sym('module')])
     good = False
     why = 'no analysable world'
@@ -241,6 +242,23 @@ def locals_emit(F, res):
                and e['args'][2][0] == 'call' and e['args'][2][1] == 'loopvar']
         cname = ins[0]['args'][2][2][2][1] if ins else None
         ups = [e for e in w.trace if e['kind'] == 'loop_update' and e['callee'] == cname]
+        if len(ins) == 1 and ins[0]['loops']:
+            # one numbering loop over `args` chained with the remaining locals: parameters first, then the rest, one
+            # counter from 0 incremented once per local
+            e = ins[0]
+            src = show(e['loops'][-1])
+            c1 = e['args'][2]
+            chained = re.match(r'^chain\((iter\()?self\.args\)?, ', src) is not None
+            zero = c1[0] == 'call' and c1[1] == 'loopvar' and c1[2][1][0] == 'lit' and c1[2][1][1] == 0
+            own = e['args'][1] == ('elem', e['loops'][-1])
+            inc = len(ups) == 1 and ups[0]['args'][1] == ('bin', 'Add', ups[0]['args'][0], ups[0]['args'][1][3]) \
+                and ups[0]['args'][1][3][0] == 'lit' and ups[0]['args'][1][3][1] == 1 and ups[0]['args'][0] == c1
+            if chained and zero and own and inc:
+                good = True
+                continue
+            why = 'a single numbering loop must walk self.args first, then the other locals, counting from 0 by 1: %s' % src[:80]
+            good = False
+            break
         if len(ins) < 2:
             continue
         first, second = ins[0], ins[-1]
